@@ -402,9 +402,6 @@ expand_capacity!(c08_q_expand_2x2_axis1_to_3, [2, 2], [2, 1], 8, 1, 3, false); /
 expand_capacity!(c08_q_expand_2x2_axis0_to_3, [2, 2], [2, 1], 8, 0, 3, true); // outer axis: fits
 expand_capacity!(c08_t_expand_2x2_axis0_to_5, [2, 2], [2, 1], 8, 0, 5, false); // exceeds capacity
 expand_capacity!(c08_t_expand_2x2_axis1_to_2, [2, 2], [2, 1], 8, 1, 2, true); // no growth
-// rows padded to stride 4: the inner axis can grow up to the padding
-expand_capacity!(c08_t_expand_padded_axis1_to_4, [2, 2], [4, 1], 16, 1, 4, true);
-expand_capacity!(c08_t_expand_padded_axis1_to_5, [2, 2], [4, 1], 16, 1, 5, false);
 // a size-1 outer axis whose (never validated) stride is too small for a second row
 expand_capacity!(c08_q_expand_1x4_stale_stride_axis0_to_2, [1, 4], [2, 1], 16, 0, 2, false);
 expand_capacity!(c06_q_expand_2x3_axis1_to_4, [2, 3], [3, 1], 16, 1, 4, false);
